@@ -145,18 +145,23 @@ PROPS = {
     "C06": dict(
         units=["snapshot", "store"],
         kani=[K_LIVE_VERSION],
-        undecided=["the whole-history half for INCREMENTAL snapshots: that the image produced by the write plan loads back to the snapshotted state needs the cross-snapshot "
-                   "invariant (every persisted key has exactly one record, at its remembered key_disk_addr, inside the key file; no stale records) - it is a "
-                   "precondition here (mem_slots_inside), not an established invariant; the bounded sweep family `snapshot` exercises it on the real code",
-                   "restart / database id / conflict strategy: write_metadata_file and load_db_metadata_from_disk_or_empty are trusted externals",
-                   "file-system glue: get_key_file_append_mode / get_values_file_append_mode / get_key_write_mode (rename, remove, open) are trusted externals",
+        undecided=["file-system glue: that the files an incremental snapshot or the loader opens are the files the previous snapshot left (get_key_file_append_mode / "
+                   "get_values_file_append_mode / get_key_write_mode: rename, remove, open) - trusted externals; the chain lemma C06.invariant-chains is about byte sequences",
+                   "restart of database id / conflict strategy: write_metadata_file and load_db_metadata_from_disk_or_empty are trusted externals",
                    "get_keys_to_update / get_keys_by_filter (iterator pipeline) has a trusted specification",
-                   "torn or truncated files (C11): the loader is verified for well-formed images only"],
+                   "torn or truncated files (C11): the loader is verified for sound images only",
+                   "two threads (a client writing while the snapshot runs): sequential semantics only - storage_data_disk works on a clone of the entries and "
+                   "set_value_as_ok writes the cloned value back",
+                   "the snapshot driver snapshot_all_pendding_dbs / load_all_dbs_from_disk (directory listing, queue) - glue; covered by the bounded sweep only"],
         assumptions=["disk model: BufWriter<File> in append mode takes every write whole (LogStream); write_at inside the file replaces exactly those bytes (RandFile); "
                      "File::read is short only at EOF; a file never exceeds i64::MAX bytes",
                      "the in-place handle and the append handle name the same key file (get_key_write_mode's trusted contract; R6 passes the append handle explicitly)",
-                     "UTF-8: String::as_bytes / str::from_utf8 are inverse on valid texts (axiom_utf8_roundtrip); integer codecs are vstd's little-endian specs",
-                     "64-bit target (global size_of usize == 8)", "fewer than 2^32 keys per database (the changed-keys counter is a u32)"],
+                     "UTF-8: String::as_bytes / str::from_utf8 are inverse on valid texts and the encoding is canonical (axiom_utf8_roundtrip, axiom_utf8_canonical); "
+                     "integer codecs are vstd's little-endian specs; every character sequence is the text of some String",
+                     "64-bit target (global size_of usize == 8)", "fewer than 2^32 keys per database (the changed-keys counter is a u32)",
+                     "the invariant `rel` is a PRECONDITION of an incremental snapshot; it is proved to be established by the reclaiming snapshot and by the loader, and kept by "
+                     "the incremental snapshot and by set_value / remove_value / inc_value - the induction over a whole history is the composition of these lemmas, "
+                     "it is not itself a machine-checked theorem over traces"],
     ),
     "C07": dict(
         units=["election"],
